@@ -44,6 +44,9 @@ type mSnapStore struct {
 	metas []*SnapshotMeta
 	calls []mCall
 	failOn bool
+	noOpenFail bool
+	openFail   map[string]bool // per snapshot id: Open fails (unusable snapshot)
+	lastOpened string
 	sinks []*mSink
 }
 
@@ -75,12 +78,17 @@ func (m *mSnapStore) List() ([]*SnapshotMeta, error) {
 }
 
 func (m *mSnapStore) Open(id string) (*SnapshotMeta, io.ReadCloser, error) {
-	if m.failOn && vFail("snap.Open") {
+	if m.failOn && !m.noOpenFail && vFail("snap.Open") {
+		m.calls = append(m.calls, mCall{opSnapOpen, 0, 0, false})
+		return nil, nil, errInjected
+	}
+	if m.openFail[id] {
 		m.calls = append(m.calls, mCall{opSnapOpen, 0, 0, false})
 		return nil, nil, errInjected
 	}
 	for _, mt := range m.metas {
 		if mt.ID == id {
+			m.lastOpened = id
 			m.calls = append(m.calls, mCall{opSnapOpen, mt.Index, mt.Term, true})
 			return mt, &mReader{}, nil
 		}
